@@ -44,3 +44,28 @@ package ice
 //@ onloop (*Agent).handleInbound
 // String() of a pair is reached through fmt verbs of log statements inside loop code.
 //@ onloop (*CandidatePair).String
+
+// The candidate itself is the context of the submissions made from its receive loop
+// (handleInboundSTUNMessage, validateNonSTUNTraffic). taskloop.Run returns ctx.Err()
+// when ctx.Done() fires, so "an error exactly when the task never ran" needs the
+// context contract: once Done() is closed, Err() is non-nil.
+//@ func (*candidateBase).Done
+//@   props C10
+//@   pure
+//@   ensures the-close-request-channel: result == c.closeCh
+//@ func (*candidateBase).Err
+//@   props C10
+//@   modifies nothing
+//@   ensures done-implies-error: closed(c.closeCh) ==> result != nil
+
+// Start is serialised: the "already started" test is made while holding the start lock,
+// so of two overlapping starts exactly one reaches the loop.
+//@ func (*Agent).startConnectivityChecks
+//@   props C10
+//@   opt nosafety
+//@   ghostvar locked bool = false
+//@   ghostvar checked bool = false
+//@   site call Lock#1 ghost locked := true
+//@   site call select#1 assert started-test-is-made-under-the-start-lock: locked
+//@   site call select#1 ghost checked := true
+//@   site call Run#1 assert start-task-is-submitted-only-after-the-test-under-the-lock: locked && checked
